@@ -156,3 +156,100 @@ Proof.
   destruct (lex_body_suffix _ _ _ _ _ H) as [lit [-> Hne]].
   exists (q :: lit). split; [reflexivity|]. destruct lit; [congruence | cbn; lia].
 Qed.
+
+(* ------------------------------------------------------------------ shape of an accepted literal *)
+
+Lemma unhex_digit_ok c v : unhex_digit c = Some v -> bad_raw c = false /\ v < 16.
+Proof.
+  unfold unhex_digit, bad_raw, is_surrogate, MAXCP. intros H.
+  destruct ((48 <=? c) && (c <=? 57)) eqn:E1.
+  { apply andb_true_iff in E1. destruct E1 as [A B]. apply N.leb_le in A. apply N.leb_le in B.
+    inversion H; subst. split; [|lia].
+    repeat (apply orb_false_iff; split); try (apply N.eqb_neq; lia); try (apply N.leb_gt; lia).
+    apply andb_false_iff. left. apply N.leb_gt. lia. }
+  destruct ((97 <=? c) && (c <=? 102)) eqn:E2.
+  { apply andb_true_iff in E2. destruct E2 as [A B]. apply N.leb_le in A. apply N.leb_le in B.
+    inversion H; subst. split; [|lia].
+    repeat (apply orb_false_iff; split); try (apply N.eqb_neq; lia); try (apply N.leb_gt; lia).
+    apply andb_false_iff. left. apply N.leb_gt. lia. }
+  destruct ((65 <=? c) && (c <=? 70)) eqn:E3; [|discriminate].
+  apply andb_true_iff in E3. destruct E3 as [A B]. apply N.leb_le in A. apply N.leb_le in B.
+  inversion H; subst. split; [|lia].
+  repeat (apply orb_false_iff; split); try (apply N.eqb_neq; lia); try (apply N.leb_gt; lia).
+  apply andb_false_iff. left. apply N.leb_gt. lia.
+Qed.
+
+(* Whatever the lexer accepts has the form  body ++ quote :: rest  where no code point of the body
+   is a line break, NUL, a surrogate or out of range (so an accepted literal never spans lines),
+   and the denoted string consists of valid code points. *)
+Lemma lex_body_shape q : forall s st out rest,
+  lex_body q st s = Some (out, rest) ->
+  exists body, s = body ++ q :: rest /\ Forall (fun c => bad_raw c = false) body /\
+               Forall (fun c => c < MAXCP) out.
+Proof.
+  induction s as [|c r IH]; intros st out rest H; cbn [lex_body] in H; [discriminate|].
+  assert (Hcons : forall x st', bad_raw c = false -> x < MAXCP ->
+             cons_res x (lex_body q st' r) = Some (out, rest) ->
+             exists body, c :: r = body ++ q :: rest /\ Forall (fun c => bad_raw c = false) body /\
+                          Forall (fun c => c < MAXCP) out).
+  { intros x st' Hc Hx Hr. destruct (lex_body q st' r) as [[o' r']|] eqn:E; cbn in Hr; [|discriminate].
+    inversion Hr; subst. destruct (IH _ _ _ E) as [body [-> [Hb Ho]]].
+    exists (c :: body). split; [reflexivity|]. split; constructor; assumption. }
+  assert (Hstep : forall st', bad_raw c = false -> lex_body q st' r = Some (out, rest) ->
+             exists body, c :: r = body ++ q :: rest /\ Forall (fun c => bad_raw c = false) body /\
+                          Forall (fun c => c < MAXCP) out).
+  { intros st' Hc E. destruct (IH _ _ _ E) as [body [-> [Hb Ho]]].
+    exists (c :: body). split; [reflexivity|]. split; [constructor; assumption | assumption]. }
+  destruct st as [| |more acc].
+  - destruct (N.eqb_spec c q) as [->|Hq].
+    { inversion H; subst. exists []. split; [reflexivity|]. split; constructor. }
+    destruct (N.eqb_spec c BS) as [->|Hb]; [apply (Hstep LEsc); [reflexivity | exact H]|].
+    destruct (bad_raw c) eqn:Eb; [discriminate|].
+    apply (Hcons c LNorm); auto.
+    unfold bad_raw in Eb. apply orb_false_iff in Eb. destruct Eb as [_ Eb]. apply N.leb_gt in Eb. exact Eb.
+  - destruct ((c =? BS) || (c =? SQ) || (c =? DQ)) eqn:E0.
+    { assert (Hc : c = BS \/ c = SQ \/ c = DQ).
+      { apply orb_true_iff in E0. destruct E0 as [E0|E0]; [apply orb_true_iff in E0; destruct E0 as [E0|E0]|];
+          apply N.eqb_eq in E0; auto. }
+      apply (Hcons c LNorm); auto; destruct Hc as [->|[->| ->]]; reflexivity. }
+    destruct (N.eqb_spec c 110) as [->|_]; [apply (Hcons 10 LNorm); auto; reflexivity|].
+    destruct (N.eqb_spec c 114) as [->|_]; [apply (Hcons 13 LNorm); auto; reflexivity|].
+    destruct (N.eqb_spec c 116) as [->|_]; [apply (Hcons 9 LNorm); auto; reflexivity|].
+    destruct (N.eqb_spec c 120) as [->|_]; [apply (Hstep (LHex 1 0)); auto|].
+    destruct (N.eqb_spec c 117) as [->|_]; [apply (Hstep (LHex 3 0)); auto|].
+    destruct (N.eqb_spec c 85) as [->|_]; [apply (Hstep (LHex 7 0)); auto|].
+    discriminate.
+  - destruct (unhex_digit c) as [v|] eqn:Eu; [|discriminate].
+    destruct (unhex_digit_ok _ _ Eu) as [Hc _].
+    destruct more as [|more'].
+    + destruct (N.ltb_spec (acc * 16 + v) MAXCP) as [Hlt|]; [|discriminate].
+      apply (Hcons (acc * 16 + v) LNorm); auto.
+    + apply (Hstep (LHex more' (acc * 16 + v))); auto.
+Qed.
+
+Theorem py_lex_string_shape input out rest :
+  py_lex_string input = Some (out, rest) ->
+  exists q body, input = q :: body ++ q :: rest /\ (q = SQ \/ q = DQ) /\
+                 Forall (fun c => bad_raw c = false) body /\ Forall (fun c => c < MAXCP) out.
+Proof.
+  intros H. apply py_lex_string_short in H. unfold py_lex_short in H.
+  destruct input as [|q r]; [discriminate|].
+  destruct ((q =? SQ) || (q =? DQ)) eqn:Eq; [|discriminate].
+  destruct (lex_body_shape _ _ _ _ _ H) as [body [-> [Hb Ho]]].
+  exists q, body. split; [reflexivity|]. split; [|split; assumption].
+  apply orb_true_iff in Eq. destruct Eq as [E|E]; apply N.eqb_eq in E; auto.
+Qed.
+
+Corollary py_lex_string_one_line input out rest :
+  py_lex_string input = Some (out, rest) ->
+  exists lit, input = lit ++ rest /\ Forall (fun c => c <> 10 /\ c <> 13) lit.
+Proof.
+  intros H. destruct (py_lex_string_shape _ _ _ H) as [q [body [-> [Hq [Hb _]]]]].
+  exists (q :: body ++ [q]). split.
+  - cbn [app]. rewrite <- app_assoc. reflexivity.
+  - assert (Hqq : q <> 10 /\ q <> 13) by (destruct Hq; subst; split; discriminate).
+    constructor; [exact Hqq|]. apply Forall_app. split; [|constructor; [exact Hqq | constructor]].
+    eapply Forall_impl; [|exact Hb]. intros c Hc. cbv beta in Hc. unfold bad_raw in Hc.
+    repeat (apply orb_false_iff in Hc; destruct Hc as [Hc ?]).
+    apply N.eqb_neq in Hc. split; [exact Hc|]. apply N.eqb_neq. assumption.
+Qed.
